@@ -684,13 +684,15 @@ def abs_target(selfn, self_pkg, is_main, q):
 
 # ------------------------------------------------------------- tree streams
 def stream_trees(ctx):
-    ntrees = ctx.n(48, 400)
+    ntrees = ctx.n(40, 240)
     tasks = []
     for i in range(ntrees):
         T = gen_tree(ctx.rng)
         qs = gen_queries(ctx.rng, T, ctx.rng.choice([4, 5, 6]), 7)
         tasks.append((i, T, qs, ctx.tmp))
+    t0 = time.time()
     results = common.pmap(_tree_task, tasks, chunksize=1)
+    ctx.stat('wall_trees_jedi_and_cpython', round(time.time() - t0, 1))
     dist = dict(forms={}, oracle_kinds={}, self_kinds={}, roots={}, nested_roots=0, beyond=0, skipped_rel=0,
                 heuristic=0)
     items, metas = [], []
@@ -817,15 +819,17 @@ def stream_trees(ctx):
                 pending.append(dict(tree=idx, chk=ci, bits=3, stream='oracle', cls=cls,
                                     data=dict(jedi_infer=jr['infer'], jedi_goto=jr['goto'], cpython=o,
                                               importer_name=dn, sys_path=rel_roots, **qdata),
-                                    what='%s in %s: jedi %r, CPython %r' % (
+                                    what='%s in %s: jedi infer %r goto %r, CPython %r' % (
                                         jr['code'].split('\n')[-3 if q['probe'] is not None else -2], imp,
-                                        jr['goto'], o[:3])))
+                                        jr['infer'], jr['goto'], o[:3])))
         items.append((L, T, chks))
         metas.append(cmeta)
 
     ctx.stat('trees', dist)
     # ---- both models on the same inputs
+    t0 = time.time()
     codes = coq_trees(items, max(1, (len(items) + common.NPROC - 1) // common.NPROC))
+    ctx.stat('wall_trees_coq', round(time.time() - t0, 1))
     reported = set()
     for p in pending:
         # predicted = the jedi model reproduces jedi's (wrong) answer on this input
@@ -873,7 +877,7 @@ SUFFIXES = ['.py', '.py', '.py', '.pyi', '.pyc', '.so', '.cpython-312-x86_64-lin
 def stream_dotted(ctx):
     from jedi.inference.sys_path import transform_path_to_dotted
     from pathlib import Path, PurePosixPath
-    n = ctx.n(2500, 20000)
+    n = ctx.n(1600, 12000)
     cases, metas = [], []
     kinds = dict(none=0, some=0, pkg=0, several_candidates=0)
     fixed = [(['/foo/ba'], '/foo/bar/baz.py'), (['/foo'], '/foo/bar/baz.py'), (['/foo/'], '/foo/bar/__init__.py'),
@@ -946,7 +950,7 @@ def stream_dotted(ctx):
         cases.append('(%s, %s, %s, %s)' % (g_list(sp, g_str, 'str'), g_path(comps_mp), g_opt(names, g_path), g_bool(is_pkg)))
         metas.append(dict(sys_path=sp, path=p, jedi=[names, bool(is_pkg)]))
     ctx.stat('dotted', kinds)
-    fails, err = common.coq_failing(IMPORTS, 'run_dotted', cases, shard=700, defs=DEFS)
+    fails, err = common.coq_failing(IMPORTS, 'run_dotted', cases, shard=max(50, (len(cases) + 15) // 16), defs=DEFS)
     if err:
         raise RuntimeError('coq evaluation failed (dotted): ' + err)
     for i in fails[:5]:
@@ -985,7 +989,12 @@ def run(ctx):
 
 def replay(ctx, path):
     rec = json.load(open(path))
-    print(json.dumps({k: v for k, v in rec.items() if k != 'tree'}, indent=1, ensure_ascii=False)[:4000])
+    flat = dict(rec)
+    flat.update(rec.get('case') or {})
+    print(json.dumps({k: v for k, v in flat.items() if k not in ('tree', 'case', 'jedi', 'traceback')},
+                     indent=1, ensure_ascii=False)[:3000])
+    if 'traceback' in rec:
+        print(rec['traceback'])
     common.setup_jedi(os.path.join(ctx.tmp, 'cache'))
     case = rec.get('case') or rec
     if 'input' in rec and 'sys_path' in rec['input'] and 'path' in rec['input']:
